@@ -26,16 +26,16 @@ CLAIMS["C03"] = ("stateless model checking of the real code under a virtual cloc
     "For every executor layer (and both flat_map stages, warm and cold) and every combinator, every schedule (<= deviation bound) of the ways the underlying work can end (value, exception, cancel issued directly on the inner future, cancel through the derived future) is executed; at quiescence a derived future whose work is terminal must be terminal, and its completion / the next retry / the next hand-over must happen at the virtual instant implied by the configuration (never a fallback timer).",
     "DESIGN.md section 6 C03")
 CLAIMS["C05"] = ("stateless model checking of the real code under a virtual clock: exhaustive parameter product x delay-bounded schedule enumeration, sequential reference model of the retry loop",
-    "The full product of outcome scripts (<=4 attempts) x ExceptionRetryPolicy parameters x base mode is executed (d=0 quick, d<=1 thorough); schedules of 1-2 concurrent or staggered submissions are enumerated to d<=2 (sync-op granularity) / d<=1 (line granularity of retry.py) with custom and raising policies; each run is compared with a reference loop: attempt count, arguments, non-overlap, exact back-off times, policy consultations, completion only after the final attempt with its outcome (same exception object).",
+    "The full product of outcome scripts (<=4 attempts) x ExceptionRetryPolicy parameters x base mode (plus falsy exception objects inside exception_base) is executed (d=0 quick, d<=1 thorough); schedules of 1-2 concurrent or staggered submissions are enumerated to d<=2 (sync-op granularity) / d<=1 (line granularity of retry.py) with custom and raising policies; each run is compared with a reference loop: attempt count, arguments, non-overlap, exact back-off times, policy consultations, completion only after the final attempt with its outcome (same exception object).",
     "DESIGN.md section 6 C05")
 CLAIMS["C06"] = ("stateless model checking of the real code: delay-bounded exhaustive placement of cancel() over a submission's life",
     "cancel() from 1-2 threads (also twice) is placed at every scheduling point of a submission's life (queued, throttled, handed over, running, between retries, polling) for every layer and six two-layer stacks, and on combinator outputs; oracles: True is sticky and nothing starts or is re-submitted afterwards, running => False with the callable's outcome, retry never re-submits after any cancel() returned, the request reaches the innermost pending delegate/input, f_nocancel shields.",
     "DESIGN.md section 6 C06")
 CLAIMS["C07"] = ("stateless model checking of the real code under a virtual clock: delay-bounded schedule enumeration with an in-flight monitor and a reference FIFO queue",
-    "Static counts 0/1/2/None, time-stepped, None-phase, raising and dropping dynamic counts, blocking and non-blocking mode, 1-2 submitter threads, 3-6 jobs, two racing completer threads and cancellation of a queued job: every schedule to d<=1 (all cells) / d<=2 (core cells) is executed; at every hand-over in-flight <= limit(t); FIFO w.r.t. real-time order of submit(); hand-over at the instant the reference queue says a slot is free (static); blocked submit() released when the queue has room; submit() never raises.",
+    "Static counts 0/1/2/None, time-stepped, None-phase, raising and dropping dynamic counts, blocking and non-blocking mode, 1-2 submitter threads, 3-6 jobs, two racing completer threads and cancellation of a queued job: every schedule to d<=1 (all cells) / d<=2 (core cells) is executed, and in blocking mode the instant at which two delegate completions meet a blocked submit() is explored to d<=2 (3 thorough) from the non-initial state 2 in flight / 2 queued (set-up on the default schedule); at every hand-over in-flight <= limit(t); FIFO w.r.t. real-time order of submit(); hand-over at the instant the reference queue says a slot is free (static); blocked submit() released when the queue has room; submit() never raises.",
     "DESIGN.md section 6 C07")
 CLAIMS["C08"] = ("stateless model checking of the real code under a virtual clock: delay-bounded schedule enumeration against a descriptor-set reference computed from the event log",
-    "1-3 polled futures (delegates finishing at different virtual times, one failing), seven poll-function behaviours (yield at first/second sight, exception, double yield, raising at call 1/2, custom interval), four cancel functions, a canceller and a notify() thread: every schedule to d<=2 (sync-op granularity) / d<=1 (line granularity of poll.py) is executed; oracles: no overlap of poll calls, descriptor set contains every future eligible before the snapshot window and none already resolved, no duplicates, first yield wins, a raising call fails exactly what it was shown, first sight and notify() are prompt, cancel function only in the polling stage and its veto respected.",
+    "1-3 polled futures (delegates finishing at different virtual times, one failing, also with a falsy exception object), seven poll-function behaviours (yield at first/second sight, exception, double yield, raising at call 1/2, custom interval), four cancel functions, a canceller and a notify() thread: every schedule to d<=2 (sync-op granularity) / d<=1 (line granularity of poll.py) is executed; oracles: no overlap of poll calls, descriptor set contains every future eligible before the snapshot window and none already resolved, no duplicates, first yield wins, a raising call fails exactly what it was shown, first sight and notify() are prompt, cancel function only in the polling stage and its veto respected.",
     "DESIGN.md section 6 C08")
 CLAIMS["C09"] = ("stateless model checking of the real code under a virtual clock: delay-bounded schedule enumeration with a cancel-attempt monitor",
     "Sets of 2-3 futures with default / per-call timeouts and f_timeout, submitted at virtual times 0/0.5/1 from separate threads, completing before / at / after their deadline or never, with a user cancel: every schedule to d<=2 (sync-op) / d<=1 (line granularity of timeout.py) is executed; every cancel() attempt by the timeout thread is logged: none before the deadline, at most one per future, exactly one in [deadline, deadline+8 eps] for a future still pending then, none for early finishers whose outcome is kept. Thorough adds a timer-jump pass for 'never early'.",
@@ -50,28 +50,28 @@ CLAIMS["C13"] = ("explicit enumeration of the input space on the real code with 
     "All 704 combinations of {map, flat_map} x {executor form, f_* form} x input {value, exception} x {already done, completing later} x fn behaviour (absent, returns, raises, returns future ok/failed/cancelled/later, non-future) x error_fn behaviour (absent, returns, raises new, re-raises same, non-future) are executed and compared with a reference (outcome, call counts, arguments, exception identity, traceback kept); all chains of length 2-3 are compared with the composed function; completion racing a cancel of the output for both flat_map stages is explored to d<=2 (line granularity).",
     "DESIGN.md section 6 C13")
 CLAIMS["C14"] = ("explicit-state enumeration of event histories on the real objects (environment choices are free) + delay-bounded schedule enumeration with a linearisation check",
-    "Every history over {input i finishes, cancel output, stop} for every outcome assignment (7 values of different types, exception, cancelled, never) with 1-3 inputs (4 in thorough), duplicates and f_nocancel-shielded inputs is executed; after every step the output is compared with the and/or fold reference, and at the end every input still pending at decision time must have received cancel(). Concurrent completions by separate threads (+ output canceller) are explored to d<=2 at line granularity of bool.py and checked for a linearisation consistent with real-time order.",
+    "Every history over {input i finishes, cancel output, stop} for every outcome assignment (7 values of different types, exception, cancelled, never) with 1-3 inputs (4 in thorough), duplicates, f_nocancel-shielded and f_proxy-wrapped inputs, inputs failing with a falsy exception object, and an output callback cancelling the sibling inputs is executed; after every step the output is compared with the and/or fold reference, and at the end every input still pending at decision time must have received cancel(). Concurrent completions by separate threads (+ output canceller) are explored to d<=2 at line granularity of bool.py and checked for a linearisation consistent with real-time order.",
     "DESIGN.md section 6 C14")
 CLAIMS["C15"] = ("explicit-state enumeration of event histories on the real objects + delay-bounded schedule enumeration with a linearisation check",
-    "Every history over {input i finishes, cancel output, stop} for every assignment of {value, exception, cancelled, never} to 0-3 inputs (4 in thorough) of f_zip / f_sequence / f_traverse, duplicate inputs, sizes 15-25 and 50 in both completion orders with a failing input at first/middle/last position, and f_traverse with a raising fn, is executed and compared step by step with a positional reference (tuple / list type, first failure, cancellation, cancel fan-out, fn called once per element in order). Concurrent completions are explored to d<=2 at line granularity of zip.py with a linearisation check.",
+    "Every history over {input i finishes, cancel output, stop} for every assignment of {value, exception, falsy exception object, CancelledError instance as exception, cancelled, never, running} to 0-3 inputs (4 in thorough) of f_zip / f_sequence / f_traverse, duplicate inputs, sizes 15-25 and 50 in both completion orders with a failing input at first/middle/last position, and f_traverse with a raising fn, is executed and compared step by step with a positional reference (tuple / list type, first failure, cancellation, cancel fan-out, fn called once per element in order). Concurrent completions are explored to d<=2 at line granularity of zip.py with a linearisation check.",
     "DESIGN.md section 6 C15")
 CLAIMS["C16"] = ("explicit enumeration of arities x completion orders x failing positions on the real code (environment choices free), plus delay-bounded schedule enumeration for concurrent completions",
-    "0-3 positional (4 thorough) x keyword sets including names that collide with the implementation's own identifiers (x, fn, key, args, kwargs): every completion permutation of the function future and argument futures, pre-resolved inputs, a failing input at each position and a raising fn are executed; oracle: exactly one call, only after all inputs resolved, positional order, keyword mapping, output = return value / the failing input's or fn's exception. Concurrent resolution by one thread per input to d<=1 (2 thorough) at line granularity.",
+    "0-3 positional (4 thorough) x keyword sets including names that collide with the implementation's own identifiers (x, fn, key, args, kwargs): every completion permutation of the function future and argument futures, pre-resolved inputs, a failing input at each position (also a falsy exception object, also through f_proxy) and a raising fn are executed, plus wide calls (10-40 positional and 12 keyword inputs) in four completion-order families; oracle: exactly one call, only after all inputs resolved, positional order, keyword mapping, output = return value / the failing input's or fn's exception. Concurrent resolution by one thread per input to d<=1 (2 thorough) at line granularity.",
     "DESIGN.md section 6 C16")
 CLAIMS["C17"] = ("exhaustive differential enumeration operator x value x operand on the real code, plus schedule enumeration for pending futures under a virtual clock",
     "Every forwarded operation (19 binary incl. 3-argument pow, 2-argument round, item set/del; 21 unary/attribute/method incl. unknown attributes and dunders) x 16 values of all builtin kinds and a user class x 15 operands x {resolved, failed, failed with AttributeError} is evaluated on the proxy and on the plain value (same value and type, or same exception type): ~9 700 evaluations. Under the scheduler: nine non-forwarded operations must return at t=0 with the future still pending, eight forwarded ones must raise TimeoutError at exactly the configured virtual time and return the right value when another thread resolves the future later; f_nocancel over probe / cooperative / done / retrying futures: cancel() False in every schedule (d<=2), input never cancelled, outcome mirrored.",
     "DESIGN.md section 6 C17")
 CLAIMS["C19"] = ("exhaustive program enumeration with a paired-program differential oracle, executed on the real code under the controlled scheduler",
-    "All with_* chains (7 layer types) of total length <=2 (quick) / <=3 (thorough) split before/after bind()/flat_bind(), x six kinds of callable (function, keyword partial, positional partial, callable object, callable object exposing .func, future-returning) x argument lists: the bound form and the submit form are built and run side by side and must give equal outcomes and equal invocation logs; flat_bind must flatten. Names: every chain of 1-3 layers containing a thread-creating layer, with an explicit name at each position or none, bind() at each position, over sync and thread-pool bases: the names of the threads created must equal the inherited names.",
+    "All with_* chains (7 layer types) of total length <=2 (quick) / <=3 (thorough) split before/after bind()/flat_bind(), x nine kinds of callable (function, keyword partial, positional partial, callable object, callable object exposing .func, falsy callable object, future-returning function, function carrying attributes such as _name, another executor's bound callable) x argument lists: the bound form and the submit form are built and run side by side and must give equal outcomes and equal invocation logs; flat_bind must flatten. Names: every chain of 1-3 layers containing a thread-creating layer, with an explicit name at each position or none, bind() at each position, over sync, thread-pool and plain stdlib-pool bases, also binding a function that carries a _name attribute: the names of the threads created must equal the inherited names.",
     "DESIGN.md section 6 C19")
 CLAIMS["C01"] = ("stateless model checking of the real code: exhaustive enumeration of layer stacks x outcome scripts, delay-bounded schedule enumeration on the shallow stacks, sequential reference evaluator",
-    "Every stack over the 7 layer types of depth 1 (d<=2), depth 2 (d<=1 with two submitter threads, d=0 otherwise) and depth 3 (d=0) - thorough adds depth 4, 5 and 6 (117 649 stacks) at d=0 - over the real SyncExecutor and the real thread pool, two submissions with tagged arguments and per-invocation outcome scripts (success, retryable failures, non-retryable failure, exhaustion), one faulty or one recovering user function per position; each run is compared with a recursive reference evaluator: value / the very exception object raised, invocation count, arguments, exactly one done notification.",
+    "Every stack over the 7 layer types of depth 1 (d<=2), depth 2 (d<=1 with two submitter threads, d=0 otherwise) and depth 3 (d=0) - thorough adds depth 4, 5 and 6 (117 649 stacks) at d=0 - over the real SyncExecutor and the real thread pool, two submissions with tagged arguments and per-invocation outcome scripts (success, retryable failures, non-retryable failure, exhaustion, exceptions that compare equal, exception objects that are falsy), one faulty or one recovering user function per position; each run is compared with a recursive reference evaluator: value / the very exception object raised, invocation count, arguments, exactly one done notification.",
     "DESIGN.md section 6 C01")
 CLAIMS["C12"] = ("stateless model checking of the real code: delay-bounded placement of shutdown / last-reference drop / exit hook over the worker loop's iteration; weak-reference liveness after an explicit gc step",
     "For the retry / poll / throttle / timeout executors: shutdown(wait or not), dropping the last user reference (idle, while the worker is iterating, after a completed future, with a future still pending) and the library's exit hook are placed by the scheduler at every point of the worker loop (d<=3 sync-op granularity, d<=2 line granularity): the worker thread must have exited by the horizon and a pending future must still complete after the drop. Retention: for 10 executor / combinator kinds and the histories completed / failed / retried / cancelled while queued / cancelled in the delegate / timed out, weak references to the future, the callable, its arguments and its result must be dead after quiescence + gc.collect() while the executor lives.",
     "DESIGN.md section 6 C12; 'interpreter exit' = the library's registered exit hook invoked as a scheduled step (real interpreter finalisation cannot be scheduled)")
 CLAIMS["C20"] = ("explicit-state enumeration of event histories on the real executors with a stand-in metrics registry, plus delay-bounded schedule enumeration of concurrent histories",
-    "With a stand-in prometheus_client on the import path: every history of depth <=5 (6 thorough) over {submit, delegate finishes ok / fails, cancel, advance time past timeouts and back-offs, shutdown} for 9 executor kinds is executed; after every event (quiescent point) futures-in-progress, executors-in-use, retry-queue and throttle-queue gauges must equal the real pending / alive / queued numbers, no series may ever have gone negative, and at the end the future total / cancel / error, retry, poll, poll-error and shutdown-cancel counters must equal the event counts. Concurrent histories (worker, cancel at the instant a retry is due, one or two shutdown threads) are explored to d<=1 (2 thorough); all f_* combinators must return every gauge to zero.",
+    "With a stand-in prometheus_client on the import path: every history of depth <=5 (6 thorough) over {submit, delegate finishes ok / fails, cancel, advance time past timeouts and back-offs, shutdown, submit after shutdown, delegate returning an already cancelled future} for 9 executor kinds (failures alternate between ordinary and falsy exception objects) is executed; after every event (quiescent point) futures-in-progress, executors-in-use, retry-queue and throttle-queue gauges must equal the real pending / alive / queued numbers, no series may ever have gone negative, and at the end the future total / cancel / error, retry, poll, poll-error and shutdown-cancel counters must equal the event counts. Concurrent histories (worker, cancel at the instant a retry is due, one or two shutdown threads) are explored to d<=1 (2 thorough); all f_* combinators must return every gauge to zero.",
     "DESIGN.md section 6 C20; the real prometheus_client is not installed, the registry is the checker's stand-in")
 NOT_YET = {}
 
